@@ -51,12 +51,12 @@ func init() {
 		NotDecided:  "truthfulness of reported counts; liveness probes; orderings of registrations as such.",
 	}
 	registry["C10"] = &propSpec{
-		Rules:       []ruleFn{ruleC10, ruleRevParse("C10-REVPARSE"), ruleC04Verify("C10-PROMOTE-COPY")},
+		Rules:       []ruleFn{ruleC10, ruleRevParse("C10-REVPARSE"), ruleC04Verify("C10-PROMOTE-COPY"), ruleC17Srv},
 		Explanation: "Decides that the counter is increased exactly once per write, only in RW mode and only after the data write succeeded; that the cache and the counter file are touched only by the revision-counter API under revisionLock, the cache after the persist and with the persisted value; that setting requires RW; and that promotion copies the RW replica's counter after switching the replica to RW, under the controller lock.",
 		NotDecided:  "monotonicity across a crash (atomicity of one O_DIRECT 4 KiB write); equality of counters across replicas as a run-time fact.",
 	}
 	registry["C11"] = &propSpec{
-		Rules:       []ruleFn{ruleC11Refuse("C11-REFUSE"), ruleC11Sync, ruleC11Rest},
+		Rules:       []ruleFn{ruleC11Refuse("C11-REFUSE"), ruleC11Sync, ruleC11Rest, ruleC12, ruleC06Snapstep},
 		Explanation: "Decides the refusals (head, latest, base, non-RW) dominating every mark-removed / unlink, the candidate range chain[1:indx] below the checkpoint with both user-snapshot exclusions (disk and merge target), that the cleaner acts only when controller and replica agree on the checkpoint and never unlinks after a failed merge, that user deletion needs all RF replicas RW and a checkpoint that is not the victim, and the splice of file list / block map / activeDiskData at one index after re-parenting.",
 		NotDecided:  "that the external merge (sfold) preserves content.",
 	}
